@@ -143,8 +143,15 @@ def touch_tensor(t, touch):
             ref <<= 0
 
 
-def encode(rank_ids, nest, desc, shape, touch=()):
-    t = Tensor.fromUncompressed(list(rank_ids), nest)
+def encode(rank_ids, nest, desc, shape, touch=(), cont=None):
+    if cont is not None:
+        # a tensor created without a shape and filled point by point: every rank estimates its shape
+        t = Tensor(rank_ids=list(rank_ids))
+        for p, v in sorted(cont.items()):
+            ref = t.getPayloadRef(*p)
+            ref <<= v
+    else:
+        t = Tensor.fromUncompressed(list(rank_ids), nest)
     touch_tensor(t, touch)
     codec = Codec(tuple(desc), [True] * len(desc))
     output = codec.get_output_dict(list(rank_ids))
@@ -544,11 +551,15 @@ def check_nested(ot, desc, dims, kids_of, cont, tag):
 # ---------------------------------------------------------------------------
 # one (tensor, descriptor, shape) triple
 
-def check_one(rank_ids, nest, natural, cont, desc, imposed, recorder, touch=()):
+def check_one(rank_ids, nest, natural, cont, desc, imposed, recorder, touch=(), estimated=False):
     tag = f"descriptor {''.join(desc)} shape={imposed} nest={nest}" + (f" touched={[tc['p'] for tc in touch]}" if touch else "")
-    t, output, ot = encode(rank_ids, nest, desc, imposed, touch)
+    if estimated:
+        # the shape of each rank is 1 + the largest coordinate stored in ANY of its fibers
+        natural = [1 + max(p[i] for p in cont) for i in range(len(natural))]
+        tag += " (tensor without declared shape)"
+    t, output, ot = encode(rank_ids, nest, desc, imposed, touch, cont if estimated else None)
     if list(t.getShape()) != list(natural):
-        raise Violation("setup", f"fromUncompressed shape {t.getShape()} != nest shape {natural}")
+        raise Violation("setup", f"tensor shape {t.getShape()} != expected {natural}")
     dims = list(imposed) if imposed is not None else list(natural)
     try:
         dec = decode(output, rank_ids, desc, dims)
@@ -616,6 +627,8 @@ def check(case, rec):
         for desc in itertools.product(FMTS, repeat=d):
             for shp in (None, imposed):
                 check_one(rank_ids, nest, dims, cont, desc, shp, rec, touch)
+            if cont and not touch and case.get("estimated"):
+                check_one(rank_ids, nest, dims, cont, desc, None, rec, (), estimated=True)
     # classification
     total = 1
     for n in dims:
@@ -705,7 +718,7 @@ def cases(draw):
             if tc not in touch:
                 touch.append(tc)
     return {"rank_ids": draw(st.sampled_from(RANK_SETS[d])), "dims": dims, "flat": flat, "grow": grow,
-            "touch": touch}
+            "touch": touch, "estimated": not touch}
 
 
 def enumerate_small(tier):
@@ -721,7 +734,8 @@ def enumerate_small(tier):
             total *= n
         for mask in range(2 ** total):
             flat = [(i + 1) if (mask >> i) & 1 else 0 for i in range(total)]
-            yield {"rank_ids": RANK_SETS[len(dims)][0], "dims": dims, "flat": flat, "grow": [1] * len(dims)}
+            yield {"rank_ids": RANK_SETS[len(dims)][0], "dims": dims, "flat": flat, "grow": [1] * len(dims),
+                   "estimated": True}
             if total <= 4 and mask != 2 ** total - 1:
                 # the same pattern stored non-canonically: every zero leaf explicit / every absent prefix
                 # an explicitly empty sub-fiber
